@@ -203,7 +203,13 @@ def run(ctx):
                 ctx.known("C06:float-repr-exponent", "%s e.g. %s" % (known["C06:float-repr-exponent"]["what"], known["C06:float-repr-exponent"]["witness"]))
                 continue
             ctx.violation("input", dict(tree={"select": {"value": v}}, formatted=txt if st == "ok" else None, reparsed=short(back, 300), requires="%s %r" % (type(v).__name__, v)))
-    for text, want, kind in (("1e3", 1000, "int-exp"), ("2E+2", 200, "int-exp"), ("1e25", 10**25, "int-exp"), ("1e-3", 0.001, "float-exp-neg-int"), ("1.0e400", None, "float-huge")):
+    # integers written with an exponent: exact below 2^53 whatever the spelling of the marker and the sign (only the inexact ones are a listed finding)
+    for m in (1, 23, 3631, 907):
+        for e in (0, 3, 5, 9):
+            for mark in ("e", "E", "e+", "E+"):
+                if m * 10 ** e < 2 ** 53:
+                    num_case("%d%s%d" % (m, mark, e), m * 10 ** e, "int-exp-exact")
+    for text, want, kind in (("1e25", 10**25, "int-exp"), ("1e-3", 0.001, "float-exp-neg-int"), ("1.0e400", None, "float-huge")):
         if want is not None:
             num_case(text, want, kind)
     ctx.count(nsys)
